@@ -10,6 +10,7 @@ import (
 	"time"
 
 	"github.com/xelaj/mtproto/zverif/hs"
+	"github.com/xelaj/mtproto/zverif/ref/mtp1"
 	"github.com/xelaj/mtproto/zverif/ref/rpcsrv"
 	"github.com/xelaj/mtproto/zverif/ref/tlw"
 	"github.com/xelaj/mtproto/zverif/sched"
@@ -214,6 +215,31 @@ func main() {
 		}
 	}
 	run.Set("truncation_histories", trunc)
+	// frames that are no MTProto packet at all, or only the beginning of one: the key id of the session (it is visible
+	// on the wire) followed by nothing, by half a message key, by a message key and 0, 1, 2 cipher blocks of
+	// garbage, by a tail that is no whole block; the same under another key id; and plain-text frames (key id 0)
+	// that are shorter than their own header
+	rawn := 0
+	for _, kid := range []string{"session-key-id", "other-key-id", "zero-key-id"} {
+		for _, n := range []int{5, 8, 12, 20, 24, 28, 40, 41, 56, 72} {
+			kid, n := kid, n
+			hists = append(hists, []ev{{name: fmt.Sprintf("raw-frame(%s,len=%d)", kid, n), raw: func(x *sess.World) rpcsrv.Event {
+				b := make([]byte, n)
+				for i := range b {
+					b[i] = byte(0x35 + 7*i)
+				}
+				switch kid {
+				case "session-key-id":
+					copy(b, mtp1.KeyID(x.Srv.Key))
+				case "zero-key-id":
+					copy(b, make([]byte, 8))
+				}
+				return rpcsrv.Event{Kind: rpcsrv.EvRawFrame, Raw: b}
+			}}})
+			rawn++
+		}
+	}
+	run.Set("raw_frame_histories", rawn)
 	var scs []*sess.Scenario
 	allow := map[string]bool{}
 	for _, h := range hists {
@@ -260,6 +286,37 @@ func main() {
 			f.Callers, f.Handler, f.Setup = base.Callers, base.Handler, base.Setup
 			scs = append(scs, f)
 			allow[f.Name] = true
+		}
+	}
+	// the client's own keep-alive ping (the ticker fires before the first request) and pongs that name it: the
+	// server's regular pong, then the same pong again, alone or with other traffic in between
+	{
+		pingID := func(x *sess.World) (int64, bool) {
+			for _, f := range x.Srv.Frames {
+				if f.Ctor == 0x7abe77ec {
+					return f.Msg.MsgID, true
+				}
+			}
+			return int64(1600000000)<<32 | 0x7770, false
+		}
+		pongPing := ev{name: "pong(keep-alive-ping)", content: true, body: func(x *sess.World) []byte {
+			id, _ := pingID(x)
+			return w().U32(0x347773c5).I64(id).I64(0xCADACADA).B
+		}}
+		resultPing := ev{name: "rpc_result(keep-alive-ping,pong)", content: true, body: func(x *sess.World) []byte {
+			id, _ := pingID(x)
+			return w().U32(0xf35c6d01).I64(id).U32(0x347773c5).I64(id).I64(0xCADACADA).B
+		}}
+		for _, h := range [][]ev{{pongPing}, {pongPing, pongPing}, {pongPing, al[3], pongPing}, {resultPing}, {resultPing, resultPing}, {resultPing, pongPing}, {pongPing, resultPing}} {
+			base := scenarioFor(h)
+			k := *base
+			k.Name = "K" + base.Name[1:]
+			k.Ticks = 1
+			k.Callers = [][]sess.Call{append([]sess.Call{}, base.Callers[0]...)}
+			k.Callers[0][0].After = func(x *sess.World) bool { _, ok := pingID(x); return ok }
+			delete(expect, k.Name)
+			scs = append(scs, &k)
+			allow[k.Name] = true
 		}
 	}
 	run.Set("history_depth", H)
